@@ -3281,3 +3281,245 @@ func invokesFuncValue(c *Ctx, info *types.Info, n ast.Node, obj types.Object, de
 	})
 	return hit
 }
+
+// R12h: every slice indexed in the partial-hash comparison is bounded by its own length first.
+const ruleTextBothIndexesGuarded = "the history comparison cannot index out of range: in the condition that compares the recomputed checksum with the recorded one (it indexes both the checksum slice and Revision.PartialHashes with the loop variable), every indexed slice is preceded in the same short-circuit `||` chain by a bound test of that same index against len() of that same slice; a revision that holds fewer partial hashes than applied statements (written by an older version, or edited) is then refused with HistoryChangedError instead of crashing the executor"
+
+func checkBothIndexesGuarded(c *Ctx, rule string) {
+	n := 0
+	c.AllFuncs(false, func(fi *FuncInfo) {
+		if fi.Pkg.PkgPath != pMigrate {
+			return
+		}
+		info := fi.Info()
+		ast.Inspect(fi.Decl.Body, func(m ast.Node) bool {
+			var cond ast.Expr
+			switch x := m.(type) {
+			case *ast.IfStmt:
+				cond = x.Cond
+			default:
+				return true
+			}
+			// the condition indexes Revision.PartialHashes
+			var idxs []*ast.IndexExpr
+			ph := false
+			ast.Inspect(cond, func(k ast.Node) bool {
+				if ix, ok := k.(*ast.IndexExpr); ok {
+					if _, isSlice := info.TypeOf(ix.X).Underlying().(*types.Slice); isSlice {
+						idxs = append(idxs, ix)
+						if isField(info, ix.X, pMigrate, "Revision", "PartialHashes") {
+							ph = true
+						}
+					}
+				}
+				return true
+			})
+			if !ph {
+				return true
+			}
+			// disjuncts in evaluation order
+			var disj func(e ast.Expr) []ast.Expr
+			disj = func(e ast.Expr) []ast.Expr {
+				if be, ok := ast.Unparen(e).(*ast.BinaryExpr); ok && be.Op == token.LOR {
+					return append(disj(be.X), disj(be.Y)...)
+				}
+				return []ast.Expr{ast.Unparen(e)}
+			}
+			ds := disj(cond)
+			for _, ix := range idxs {
+				n++
+				c.funcs[fi.Name] = true
+				guarded := false
+				for _, d := range ds {
+					if d.Pos() <= ix.Pos() && ix.End() <= d.End() {
+						break // the disjunct that contains the index: guards must come before it
+					}
+					be, ok := d.(*ast.BinaryExpr)
+					if !ok {
+						continue
+					}
+					// i >= len(a)  |  len(a) <= i  |  i > len(a)-1 …
+					var lenSide, idxSide ast.Expr
+					switch be.Op {
+					case token.GEQ:
+						idxSide, lenSide = be.X, be.Y
+					case token.LEQ:
+						idxSide, lenSide = be.Y, be.X
+					default:
+						continue
+					}
+					if a := lenArg(info, lenSide); a != nil && types.ExprString(a) == types.ExprString(ix.X) && types.ExprString(ast.Unparen(idxSide)) == types.ExprString(ast.Unparen(ix.Index)) {
+						guarded = true
+					}
+				}
+				// or bounded by the enclosing loop: `for i := range min(…, len(a), …)` / `for …; i < len(a) && …; …`
+				if !guarded {
+					pmF := parentMap(fi.Decl)
+					for p := pmF[ix]; p != nil && !guarded; p = pmF[p] {
+						switch lp := p.(type) {
+						case *ast.RangeStmt:
+							if key, ok := lp.Key.(*ast.Ident); ok && types.ExprString(key) == types.ExprString(ast.Unparen(ix.Index)) {
+								if call, ok := ast.Unparen(lp.X).(*ast.CallExpr); ok && builtinName(info, call) == "min" {
+									for _, a := range call.Args {
+										if la := lenArg(info, a); la != nil && types.ExprString(la) == types.ExprString(ix.X) {
+											guarded = true
+										}
+									}
+								}
+								if la := lenArg(info, lp.X); la != nil && types.ExprString(la) == types.ExprString(ix.X) {
+									guarded = true
+								}
+							}
+						case *ast.ForStmt:
+							if lp.Cond != nil {
+								for _, f := range impliedFacts(lp.Cond, true) {
+									if be, ok := ast.Unparen(f.expr).(*ast.BinaryExpr); ok && f.val && be.Op == token.LSS && types.ExprString(ast.Unparen(be.X)) == types.ExprString(ast.Unparen(ix.Index)) {
+										if la := lenArg(info, be.Y); la != nil && types.ExprString(la) == types.ExprString(ix.X) {
+											guarded = true
+										}
+									}
+								}
+							}
+						}
+					}
+				}
+				c.Check(rule, fi.Name+"|"+types.ExprString(ix)+" bounded by len before use", ix.Pos(), guarded, "%s indexes %s in the history comparison without first testing %s >= len(%s) in the same condition: a revision with fewer recorded hashes than applied statements makes the executor panic instead of refusing the file", fi.Name, types.ExprString(ix), types.ExprString(ix.Index), types.ExprString(ix.X))
+			}
+			return true
+		})
+	})
+	if n < 2 {
+		c.Unresolved(rule, "indexed slices in the partial-hash comparison (fewer than 2)")
+	}
+}
+
+// R15o: a value-carrying attribute is written with its value.
+const ruleTextValueWritten = "value attributes are written with their value: in the dialect marshallers, when a branch is taken because `sqlx.Has(attrs, &e)` found an attribute e whose type has a boolean/string/int value field, a schemahcl.*Attr written in that branch with a constant value of that kind instead of a field of e loses the value (every MySQL CHECK … NOT ENFORCED is exported as `enforced = true`)"
+
+func checkValueWritten(c *Ctx, rule string) {
+	n := 0
+	for _, pp := range []string{pMysql, pPostgres, pSqlite} {
+		c.AllFuncs(false, func(fi *FuncInfo) {
+			if fi.Pkg.PkgPath != pp {
+				return
+			}
+			base := c.Fset.Position(fi.Decl.Pos()).Filename
+			base = base[strings.LastIndex(base, "/")+1:]
+			if !strings.HasPrefix(base, "sqlspec") {
+				return
+			}
+			info := fi.Info()
+			ast.Inspect(fi.Decl.Body, func(m ast.Node) bool {
+				ifs, ok := m.(*ast.IfStmt)
+				if !ok {
+					return true
+				}
+				// cond: sqlx.Has(X, &e) with e a local of struct type having a basic-typed field
+				var target types.Object
+				var st *types.Struct
+				for _, f := range impliedFacts(ifs.Cond, true) {
+					call, ok := ast.Unparen(f.expr).(*ast.CallExpr)
+					if !ok || !f.val || !funcIs(calleeOf(info, call), pSqlx, "", "Has") || len(call.Args) != 2 {
+						continue
+					}
+					un, ok := ast.Unparen(call.Args[1]).(*ast.UnaryExpr)
+					if !ok || un.Op != token.AND {
+						continue
+					}
+					id, ok := ast.Unparen(un.X).(*ast.Ident)
+					if !ok {
+						continue
+					}
+					if s, ok := derefType(info.TypeOf(id)).Underlying().(*types.Struct); ok {
+						target, st = info.ObjectOf(id), s
+					}
+				}
+				if target == nil {
+					return true
+				}
+				kinds := map[types.BasicKind]bool{}
+				for i := 0; i < st.NumFields(); i++ {
+					if b, ok := st.Field(i).Type().Underlying().(*types.Basic); ok && !st.Field(i).Embedded() {
+						switch {
+						case b.Info()&types.IsBoolean != 0:
+							kinds[types.Bool] = true
+						case b.Info()&types.IsString != 0:
+							kinds[types.String] = true
+						case b.Info()&types.IsInteger != 0:
+							kinds[types.Int] = true
+						}
+					}
+				}
+				if len(kinds) == 0 {
+					return true
+				}
+				ast.Inspect(ifs.Body, func(q ast.Node) bool {
+					call, ok := q.(*ast.CallExpr)
+					if !ok || len(call.Args) != 2 {
+						return true
+					}
+					fn := calleeOf(info, call)
+					if fn == nil || fn.Pkg() == nil || fn.Pkg().Path() != pHCL || !strings.HasSuffix(fn.Name(), "Attr") {
+						return true
+					}
+					n++
+					c.funcs[fi.Name] = true
+					key, _ := stringConst(info, call.Args[0])
+					usesTarget := false
+					ast.Inspect(call.Args[1], func(r ast.Node) bool {
+						if id, ok := r.(*ast.Ident); ok && info.ObjectOf(id) == target {
+							usesTarget = true
+						}
+						return true
+					})
+					tv := info.Types[call.Args[1]]
+					constKind := types.Invalid
+					if tv.Value != nil {
+						switch tv.Value.Kind() {
+						case constant.Bool:
+							constKind = types.Bool
+						case constant.String:
+							constKind = types.String
+						case constant.Int:
+							constKind = types.Int
+						}
+					}
+					// the constant is fine where a condition between the Has test and the write examined the value
+					examined := false
+					pmLocal := parentMap(ifs)
+					mentionsT := func(e ast.Node) bool {
+						hit := false
+						ast.Inspect(e, func(r ast.Node) bool {
+							if id, ok := r.(*ast.Ident); ok && info.ObjectOf(id) == target {
+								hit = true
+							}
+							return !hit
+						})
+						return hit
+					}
+					for p := pmLocal[call]; p != nil && p != ast.Node(ifs); p = pmLocal[p] {
+						switch x := p.(type) {
+						case *ast.IfStmt:
+							if mentionsT(x.Cond) {
+								examined = true
+							}
+						case *ast.CaseClause:
+							for _, e := range x.List {
+								if mentionsT(e) {
+									examined = true
+								}
+							}
+						}
+					}
+					bad := !usesTarget && !examined && constKind != types.Invalid && kinds[constKind]
+					c.Check(rule, fi.Name+"|attribute "+key+" written from "+target.Name(), call.Pos(), !bad, "%s writes the attribute %q with the constant %s although the attribute found by sqlx.Has (%s) carries a value of that kind: the exported HCL loses it", fi.Name, key, types.ExprString(call.Args[1]), target.Name())
+					return true
+				})
+				return true
+			})
+		})
+	}
+	if n == 0 {
+		c.Unresolved(rule, "attributes written under a sqlx.Has guard in the marshallers")
+	}
+}
